@@ -56,6 +56,7 @@ class Fn:
         self.structs = spec.get("structs", {})      # struct/variant path -> (Gallina constructor, [field order])
         self.uses_fuel = False
         self.gensym = 0
+        self.in_closure = False                     # inside the closure of an inlined call (with_commit_lock(.., || ..))
         self.buffers = {}                           # local fixed-size byte buffer -> its length
         self.handles = {}                           # local file-handle variable -> Gallina text of the path it was opened on
 
@@ -347,6 +348,8 @@ class Fn:
                 m = re.match(r"(u\d+|usize)::from$", name)
                 if m and len(e[2]) == 1:
                     return self.ex(e[2][0], env)       # widening
+                if name in self.spec.get("only_under_lock", ()) and not self.in_closure:
+                    raise Unsupported("%s is called outside the closure passed to with_commit_lock (the compare-and-swap must read, decide and rename under the lock)" % name)
                 if name in self.calls:
                     return self.apply(self.calls[name][0], [self.ex(a, env) for a in e[2]])
                 if name in self.paths or f[1][-1] in self.paths:      # enum constructor with arguments
@@ -354,7 +357,7 @@ class Fn:
             raise Unsupported("call of %s" % (f,))
         if k == "mcall":
             recv, name, args = e[1], e[2], e[3]
-            if name in ("copied", "cloned", "clone", "to_owned", "iter", "as_ref", "collect", "to_path_buf", "to_string_lossy", "ok", "as_os_str", "to_string") and not args:
+            if name in ("copied", "cloned", "clone", "to_owned", "iter", "as_ref", "collect", "to_path_buf", "to_string_lossy", "ok", "as_os_str", "to_string", "into") and not args:
                 return self.ex(recv, env)
             if name == "map_err" and len(args) == 1:
                 return self.ex(recv, env)
@@ -500,6 +503,15 @@ class Fn:
 
     def match(self, e, env, ctx):
         scrut = e[1]
+        if self.spec.get("assume_ok") and scrut[0] == "call" and scrut[1][0] == "path" and "::".join(scrut[1][1]) in self.spec.get("state_updates", {}) \
+                and len(e[2]) == 2 and e[2][0][0][0] == "ppath" and e[2][0][0][1][-1] == "Ok" and e[2][1][0][0] == "ppath" and e[2][1][0][1][-1] == "Err":
+            # `match rename(a, b) { Ok(()) => A, Err(e) => B }`: in the flat-name model the call cannot fail: the state is
+            # updated and A is the value (B - the error reply of a failed rename - has no counterpart in the model)
+            if "::".join(scrut[1][1]) in self.spec.get("only_under_lock", ()) and not self.in_closure:
+                raise Unsupported("%s is called outside the closure passed to with_commit_lock" % "::".join(scrut[1][1]))
+            st = self.spec["state"]
+            tmpl = self.spec["state_updates"]["::".join(scrut[1][1])]
+            return "let %s := %s in %s" % (st, self.apply(tmpl, [self.ex(a, env) for a in scrut[2]]), self.tail(e[2][0][2], env, ctx))
         st = self.ty(scrut, env)
         if scrut[0] == "tuple":
             ts = [self.ty(x, env) for x in scrut[1]]
@@ -712,6 +724,39 @@ class Fn:
             le = self.effect_of(("expr", s[3], True), env)
             if le is not None:
                 return "let effs := effs ++ [%s] in let %s := tt in %s" % (le, self.var(s[1][1]), after(dict(env, **{s[1][1]: "()"})))
+        if self.spec.get("ignored_calls"):
+            e9 = s[1] if k == "expr" else (s[3] if k == "let" and s[1][0] == "pwild" else None)
+            if e9 is not None:
+                while e9[0] == "try":
+                    e9 = e9[1]
+                if e9[0] == "call" and e9[1][0] == "path" and "::".join(e9[1][1]) in self.spec["ignored_calls"]:
+                    return after(env)
+        if self.spec.get("state"):
+            st = self.spec["state"]
+            # let _ = f(..);  /  f(..);  where f updates the state
+            e0 = s[1] if k == "expr" else (s[3] if k == "let" and s[1][0] == "pwild" else None)
+            if e0 is not None:
+                while e0[0] == "try":
+                    e0 = e0[1]
+                if e0[0] == "call" and e0[1][0] == "path" and "::".join(e0[1][1]) in self.spec.get("state_updates", {}):
+                    if "::".join(e0[1][1]) in self.spec.get("only_under_lock", ()) and not self.in_closure:
+                        raise Unsupported("%s is called outside the closure passed to with_commit_lock" % "::".join(e0[1][1]))
+                    tmpl = self.spec["state_updates"]["::".join(e0[1][1])]
+                    return "let %s := %s in %s" % (st, self.apply(tmpl, [self.ex(a, env) for a in e0[2]]), after(env))
+            # let x = inlined_closure_call(.., || body)?;   ->  let '(state, x) := <body as (state, value)> in
+            if k == "let" and s[1][0] == "pbind" and s[3] is not None:
+                e1 = s[3]
+                while e1[0] == "try":
+                    e1 = e1[1]
+                if e1[0] == "call" and e1[1][0] == "path" and "::".join(e1[1][1]) in self.spec.get("inline_closure_calls", {}):
+                    ci = self.spec["inline_closure_calls"]["::".join(e1[1][1])]
+                    clo = e1[2][ci]
+                    if clo[0] != "closure" or clo[1]:
+                        raise Unsupported("expected a closure without parameters")
+                    self.in_closure = True
+                    body = self.tail(clo[2], env, Ctx(val=lambda v: "(%s, %s)" % (st, v), ret=None, fall=None))
+                    self.in_closure = False
+                    return "let '(%s, %s) := %s in %s" % (st, self.var(s[1][1]), paren(body), after(dict(env, **{s[1][1]: None})))
         eff = self.effect_of(s, env)
         if eff is not None:
             return "let effs := effs ++ [%s] in %s" % (eff, after(env))
@@ -1137,6 +1182,104 @@ def functions():
         return translate_fn(src, "parse", "FileLocation", spec, "g_parse_location", "(s : list Z)", "location")
     out.append(("parse_location", "src/bin/copia/main.rs FileLocation::parse", None, t_parse_location))
 
+    def t_handle_delete():
+        src = read("src/bin/copia/serve.rs")
+        spec = dict(signature=[("root", "Path"), ("lockdir", "Path"), ("path", "str"), ("expected", "Option<Hash>"), ("w", "W")],
+                    state="t", state_updates={"std::fs::remove_file": "delete {0} t"}, only_under_lock=("current_hash", "cas_decide", "std::fs::remove_file"),
+                    inline_closure_calls={"with_commit_lock": 1},
+                    calls={"safe_join": ("safe_key {1}", "Option<PathBuf>"), "current_hash": ("cur_of Hh t {0}", "Option<Hash>"),
+                           "cas_decide": ("g_cas_decide D deqD", "Cas"), "write_frame": ("(t, {1})", "Reply")},
+                    paths={"Cas::Commit": "GCommit", "Cas::Conflict": "GConflict"},
+                    structs={"Response::DeleteResult": ("RDel", ["deleted", "current"], ["bool", "Option<Hash>"])},
+                    errs=[(r"bad path", "RBadPath")], param_types={"root": "Path"})
+        # Response::Error("bad path".into()) -> classified by its text
+        spec["calls"]["Response::Error"] = ("{0}", "Reply")
+        spec["strings"] = {"bad path": "RBadPath"}
+        return translate_fn(src, "handle_delete", None, spec, "g_handle_delete", "(t : tree) (path : bytes) (expected : option D)", "tree * sreply")
+    out.append(("handle_delete", "src/bin/copia/serve.rs handle_delete", None, t_handle_delete))
+
+    PUT_STREAM_BLOCK = """{
+    let mut hasher = blake3::Hasher::new();
+    let mut received: u64 = 0;
+    {
+        let mut limited = r.take(len);
+        let mut buf = vec![0u8; 256 * 1024];
+        loop {
+            let n = limited.read(&mut buf)?;
+            if n == 0 {
+                break;
+            }
+            received += n as u64;
+            hasher.update(&buf[..n]);
+            tf.write_all(&buf[..n])?;
+        }
+        tf.sync_all()?;
+    }
+    drop(tf);
+}"""
+    PUT_CNAME_STMT = """{
+    let mut cn = dst.as_os_str().to_owned();
+    cn.push(format!(".conflict-{}", super::wire::short_hash(&hash)));
+}"""
+
+    def t_handle_put():
+        src = read("src/bin/copia/serve.rs")
+        params, ret, body = R.find_fn(src, "handle_put", None)
+        # the streaming block (read at most `len` bytes from the input in chunks, hash them, write them to the staging file,
+        # fsync it) is checked LITERALLY and read as: the staging file holds `content` (the bytes that arrived, at most len),
+        # `received` is their count and the hasher has seen exactly them
+        want = R.Parser(R.tokenize(PUT_STREAM_BLOCK)).block()[1]
+        stmts = list(body[1])
+        idx = next((i for i, st in enumerate(stmts) if st[0] == "let" and st[1] == ("pbind", "hasher")), None)
+        norm = lambda x: json.loads(json.dumps(x))
+        if idx is None or norm(stmts[idx:idx + len(want)]) != norm(want):
+            raise Unsupported("handle_put: the block that streams the content into the staging file is no longer the reviewed one")
+        stmts[idx:idx + len(want)] = [("let", ("pbind", "received"), "u64", ("path", ["CONTENT_LEN"]), None)]
+        # the conflict-copy name, inside the closure: checked literally, read as `cname dst hash`
+        wantc = R.Parser(R.tokenize(PUT_CNAME_STMT)).block()[1]
+        found = []
+        def rewrite(n):
+            if isinstance(n, tuple):
+                if n and n[0] == "block":
+                    ss = list(n[1])
+                    for i in range(len(ss)):
+                        if norm(ss[i:i + 2]) == norm(wantc):
+                            found.append(1)
+                            ss[i:i + 2] = [("let", ("pbind", "cn"), None, ("path", ["CONFLICT_NAME"]), None)]
+                            break
+                    return ("block", [rewrite(x) for x in ss], rewrite(n[2]) if n[2] is not None else None)
+                return tuple(rewrite(x) for x in n)
+            if isinstance(n, list):
+                return [rewrite(x) for x in n]
+            return n
+        body2 = rewrite(("block", stmts, body[2]))
+        if len(found) != 1:
+            raise Unsupported("handle_put: the conflict-copy name is no longer `<dst>` + format!(\".conflict-{}\", short_hash(&hash))")
+        spec = dict(state="t", assume_ok=True, try_transparent=True, only_under_lock=("current_hash", "cas_decide", "std::fs::rename"),
+                    state_updates={"std::fs::remove_file": "rm_staging {0} t", "std::fs::rename": "mv_staging {0} {1} content t"},
+                    ignored_calls=["std::io::copy", "std::fs::create_dir_all", "drop"],
+                    inline_closure_calls={"with_commit_lock": 1},
+                    calls={"safe_join": ("safe_key {1}", "Option<PathBuf>"), "current_hash": ("cur_of Hh t {0}", "Option<Hash>"),
+                           "cas_decide": ("g_cas_decide D deqD", "Cas"), "write_frame": ("(t, {1})", "Reply"),
+                           "create_staging": ("(mk_staging {0}, tt)", "(Staging,File)"), ".parent": ("Some {0}", "Option<Path>"),
+                           ".finalize": ("Hh content (* {0} *)", "Hasher"), ".as_bytes": ("{0}", "Hash"), "PathBuf::from": ("{0}", "PathBuf"),
+                           "Response::Error": ("{0}", "Reply")},
+                    consts={"CONTENT_LEN": ("(lenZ content)", "u64"), "CONFLICT_NAME": ("(cname dst hash)", "PathBuf")},
+                    eq={"Hash": "deq_b"}, paths={"Cas::Commit": "GCommit", "Cas::Conflict": "GConflict"},
+                    structs={"Response::PutResult": ("RPut", ["committed", "current"], ["bool", "Option<Hash>"])},
+                    strings={"bad path": "RBadPath", "content length mismatch": "RMismatch", "content hash mismatch": "RMismatch"},
+                    param_types={"hash": "Hash", "len": "u64"})
+        fn = Fn(spec)
+        env = {"root": "Path", "lockdir": "Path", "path": "str", "expected": "Option<Hash>", "len": "u64", "hash": "Hash", "r": "R", "w": "W", "hasher": "Hasher", "tf": "File"}
+        spec["rename"] = {"hasher": "tt", "len": "len"}
+        want_sig = [("root", "Path"), ("lockdir", "Path"), ("path", "str"), ("expected", "Option<Hash>"), ("len", "u64"), ("hash", "Hash"), ("r", "R"), ("w", "W")]
+        got_sig = [(n, norm_type(ty_).replace("mut", "")) for n, ty_ in params]
+        if got_sig != want_sig:
+            raise Unsupported("signature of handle_put is %s" % got_sig)
+        text = fn.block(body2, env, Ctx(val=(lambda x: x), ret=(lambda x: x), fall=None))
+        return "Definition g_handle_put (t : tree) (path : bytes) (expected : option D) (len : Z) (hash : D) (content : bytes) : tree * sreply :=\n  %s." % text
+    out.append(("handle_put", "src/bin/copia/serve.rs handle_put", None, t_handle_put))
+
     def t_cas():
         src = read("src/bin/copia/wire.rs")
         check_enum(src, "Cas", ["Commit", "Conflict"])
@@ -1253,6 +1396,7 @@ GROUPS = {
     "Targets": ("Model.Targets", False, ["split_target", "parse_location"]),
     "WireMagic": ("Model.Wire", False, ["read_magic"]),
     "BisyncApply": ("", "bisync", ["apply"]),
+    "HubDelete": ("", "hubseq", ["handle_delete", "handle_put"]),
     "BisyncSys": ("", "bisyncsys", ["copy_atomic"]),
     "ArchiveSave": ("Model.ArchiveSys", "archivesys", ["archive_save"]),
     "OneWaySys": ("Model.OneWaySys", "onewaysys", ["tmp_path", "deliver_local", "deliver_pull"]),
@@ -1296,7 +1440,20 @@ def main():
         body = HEADER % (group, imports)
         if group == "Cas":
             body += "\nInductive g_cas := GCommit | GConflict.\n"
-        if digest == "archivesys":
+        if digest == "hubseq":
+            body = ("(** GENERATED by tools/gen_logic.py from /repo's CURRENT source - do not edit.\n    serve.rs `handle_delete` as a function of the served tree (sequential reading: `with_commit_lock(.., || body)` is\n"
+                    "    its body; `safe_join` yields the canonical key of the file the joined path names; `write_frame(w, r)` is the reply r). *)\n"
+                    "From stdpp Require Import gmap.\nFrom Copia Require Import Model.LoopLib Model.Hub Model.SafeJoin Model.HubSeq Gen.CasGen.\n\n"
+                    "Section WithHub.\nContext {D : Type} `{EqDecision D}.\nVariable Hh : list Z -> D.\n"
+                    "Definition deqD : forall x y : D, {x = y} + {x <> y} := fun x y => decide (x = y).\n"
+                    "Definition safe_key (rel : list Z) : option (list Z) := if refused rel then None else Some (canon rel).\n"
+                    "Notation bytes := (list Z).\nNotation tree := (gmap (list Z) (list Z)).\nVariable cname : bytes -> D -> bytes.\n"
+                    "Definition deq_b (x y : D) : bool := bool_decide (x = y).\n"
+                    "(* a staging file is not a name of the served tree: its own type, so that it cannot stand where a live path is meant *)\n"
+                    "Inductive staging := mk_staging (dst : bytes).\n"
+                    "Definition rm_staging (s : staging) (t : tree) : tree := t.\n"
+                    "Definition mv_staging (s : staging) (to : bytes) (c : bytes) (t : tree) : tree := <[to := c]> t.\n\n" + "\n".join(texts) + "End WithHub.\n")
+        elif digest == "archivesys":
             body = (HEADER % (group, imports)) + "\nSection WithFs.\nVariable path_exists : apath -> bool.   (* path.exists() *)\n\n" + "\n".join(texts) + "End WithFs.\n"
         elif digest == "onewaysys":
             body = (HEADER % (group, imports)) + "\nSection WithPaths.\nContext {K : Type}.\nNotation opath := (@opath K).\nNotation osys := (@osys K).\n\n" + "\n".join(texts) + "End WithPaths.\n"
